@@ -16,6 +16,10 @@ type SchemaCache struct {
 	// placeholder ref which has not yet been linked.
 	mu       sync.Mutex
 	packages map[string]*Package
+
+	// refs registered by the Schema call in progress; they are removed again
+	// when that call fails, so that a failed build leaves nothing behind.
+	added []*RefSchema
 }
 
 func NewSchemaCache() *SchemaCache {
@@ -49,21 +53,40 @@ func (sc *SchemaCache) Schema(src protoreflect.MessageDescriptor) (RootSchema, e
 		Schema:  nameInPackage,
 	}
 	schemaPackage.Schemas[nameInPackage] = placeholder
+	sc.added = append(sc.added[:0], placeholder)
 
 	msgOptions := proto.GetExtension(src.Options(), ext_j5pb.E_Message).(*ext_j5pb.MessageOptions)
 	isOneofWrapper := isOneofWrapper(src, msgOptions)
+	var built RootSchema
 	var err error
 	if isOneofWrapper {
-		placeholder.To, err = schemaPackage.buildOneofSchema(src, msgOptions.GetOneof())
+		var oneof *OneofSchema
+		if oneof, err = schemaPackage.buildOneofSchema(src, msgOptions.GetOneof()); err == nil {
+			built = oneof
+		}
 	} else {
-		placeholder.To, err = schemaPackage.buildObjectSchema(src, msgOptions.GetObject())
+		var object *ObjectSchema
+		if object, err = schemaPackage.buildObjectSchema(src, msgOptions.GetObject()); err == nil {
+			built = object
+		}
+	}
+	if err == nil && built.FullName() != placeholder.FullName() {
+		err = fmt.Errorf("schema %q has wrong name %q", placeholder.FullName(), built.FullName())
+	}
+	if err == nil {
+		placeholder.To = built
+		for _, ref := range sc.added {
+			if err = validateBuiltRef(ref); err != nil {
+				break
+			}
+		}
 	}
 	if err != nil {
+		// nothing registered by a failed build may be handed out later
+		sc.rollback()
 		return nil, err
 	}
-	if placeholder.To.FullName() != placeholder.FullName() {
-		return nil, fmt.Errorf("schema %q has wrong name %q", placeholder.FullName(), placeholder.To.FullName())
-	}
+	sc.added = sc.added[:0]
 	verifAt("return", packageName+"."+nameInPackage)
 	return placeholder.To, nil
 }
@@ -81,8 +104,76 @@ func (sc *SchemaCache) refTo(pkg, schema string) (*RefSchema, bool) {
 		Schema:  schema,
 	}
 	refPackage.Schemas[schema] = refSchema
+	sc.added = append(sc.added, refSchema)
 
 	return refSchema, false
+}
+
+func (sc *SchemaCache) rollback() {
+	for _, ref := range sc.added {
+		if current, ok := ref.Package.Schemas[ref.Schema]; ok && current == ref {
+			delete(ref.Package.Schemas, ref.Schema)
+		}
+	}
+	sc.added = sc.added[:0]
+}
+
+// validateBuiltRef rejects schemas which can be built but not used: an object
+// which is flattened into itself (directly or through other flattened objects)
+// has no finite set of properties, and two properties of one object or oneof
+// cannot share a name.
+func validateBuiltRef(ref *RefSchema) error {
+	switch schema := ref.To.(type) {
+	case *ObjectSchema:
+		if schema == nil {
+			return nil
+		}
+		if err := checkFlattenCycle(schema, nil); err != nil {
+			return err
+		}
+		seen := map[string]struct{}{}
+		for _, prop := range schema.ClientProperties() {
+			if _, ok := seen[prop.JSONName]; ok {
+				return fmt.Errorf("object %s has two properties named %q", schema.FullName(), prop.JSONName)
+			}
+			seen[prop.JSONName] = struct{}{}
+		}
+	case *OneofSchema:
+		if schema == nil {
+			return nil
+		}
+		seen := map[string]struct{}{}
+		for _, prop := range schema.Properties {
+			if _, ok := seen[prop.JSONName]; ok {
+				return fmt.Errorf("oneof %s has two properties named %q", schema.FullName(), prop.JSONName)
+			}
+			seen[prop.JSONName] = struct{}{}
+		}
+	}
+	return nil
+}
+
+func checkFlattenCycle(schema *ObjectSchema, path []*ObjectSchema) error {
+	for _, parent := range path {
+		if parent == schema {
+			return fmt.Errorf("object %s is flattened into itself", schema.FullName())
+		}
+	}
+	path = append(path, schema)
+	for _, prop := range schema.Properties {
+		field, ok := prop.Schema.(*ObjectField)
+		if !ok || !field.Flatten || field.Ref == nil {
+			continue
+		}
+		child, ok := field.Ref.To.(*ObjectSchema)
+		if !ok || child == nil {
+			continue
+		}
+		if err := checkFlattenCycle(child, path); err != nil {
+			return err
+		}
+	}
+	return nil
 }
 
 func (sc *SchemaCache) referencePackage(name string) *Package {
